@@ -14,12 +14,12 @@ def run(ctx):
               ('MC_idle_rbulk.cfg', 'ring fast path, 2 tasks, groups of 2'),
               ('MC_idle_placed3.cfg', 'schedulePlaced x2 into 3 parked workers')) if thorough else ()):
         ctx.check_model(pc.SPEC, 'MCPool.tla', cfg, WHAT, label=lab + ' (no time-outs, deadlock check)', workers=8,
-                        vacuity_exempt=VAC)
+                        required=('GateIdle', 'GateQuiet', 'FutexWait', 'FutexWake', 'FutexRet'))
     n = 12 if thorough else 4
     scen = [(2, 'main:new2,idle,fq1,quiet,del'), (2, 'main:new3,idle,bulk1.2,quiet,del'),
             (4, 'main:new3,idle,rbulk1.2,quiet,del'), (2, 'main:new3,idle,rbulk1.3,quiet,del'),
             (4, 'main:new3,idle,bulk1.3,quiet,del'), (2, 'main:new1,idle,sched1,quiet,del')]
-    scen += [(2, 'main:new2,idle,pfq1,quiet,del'), (2, 'main:new3,idle,placed1,quiet,idle,pfq2,quiet,del')]
+    scen += [(2, 'main:new2,idle,rbulk1.2,quiet,idle,pfq3,quiet,idle,placed4,quiet,del'), (2, 'main:new2,idle,pfq1,quiet,del'), (2, 'main:new3,idle,placed1,quiet,idle,pfq2,quiet,del')]
     if thorough:
         scen += [(4, 'main:new3,idle,rbulk1.1,quiet,del'), (2, 'main:new3,idle,rbulk1.2,quiet,del'),
                  (4, 'main:new2,idle,fq1,quiet,del'), (4, 'main:new3,idle,rbulk1.3,quiet,del')]
